@@ -7,7 +7,11 @@ import (
 	"strings"
 
 	"ergo.services/ergo/gen"
+	"ergo.services/ergo/net/handshake"
+	"verif.local/vsched"
 	"verif.local/vsched/harn"
+	"verif.local/vsched/vconn"
+	vsync "verif.local/vsched/vsync"
 )
 
 // C13 — network FIFO between a pair of processes.
@@ -128,4 +132,137 @@ func init() {
 			})})
 		}})
 	}
+}
+
+func init() {
+	// compressed and uncompressed frames of one pair must share the receive queue
+	harn.Register(harn.Scenario{Property: "C13", Name: "fifo-compressed-mix", Run: func(ctx *harn.Ctx) *harn.Result {
+		return harn.Explore(ctx, harn.Sched{QuickBound: 1, ThoroughBound: 2, Preempt: false, Cache: true, Body: netBody(netOpts{skipB: 1}, func(nw *NetWorld) {
+			var errs []string
+			var got []string
+			rpid := nw.b.spawnProbe("R", probeCfg{onMsg: func(p *probe, from gen.PID, m any) error {
+				if b, ok := m.([]byte); ok {
+					got = append(got, fmt.Sprintf("m%d", b[0]))
+				}
+				return nil
+			}}, gen.ProcessOptions{})
+			spid := nw.a.spawnProbe("S", probeCfg{onMsg: func(p *probe, from gen.PID, m any) error {
+				for i, n := range []int{3000, 10, 2500, 12, 20} {
+					pl := mkPayload(n, 0)
+					pl[0] = byte(i + 1)
+					if err := p.Send(rpid, pl); err != nil {
+						errs = append(errs, err.Error())
+					}
+				}
+				return nil
+			}}, gen.ProcessOptions{Compression: gen.Compression{Enable: true, Threshold: 1025}})
+			nw.connect()
+			if nw.ex.Failed() {
+				return
+			}
+			nw.ex.Thread("GO", func() { nw.a.n.Send(spid, "go") })
+			nw.Check = func() {
+				want := []string{"m1", "m2", "m3", "m4", "m5"}
+				if !inOrder(got, want) {
+					nw.ex.Fail("network-order-violated", "sender %d sent %v (frames above and below the compression threshold) to receiver %d; handled in the order %v", spid.ID, want, rpid.ID, got)
+				}
+				if len(got) != 5 && len(errs) == 0 {
+					nw.ex.Fail("network-message-lost", "sent 5, handled %v", got)
+				}
+				nw.Out("got=%v errs=%v", got, errs)
+			}
+		})})
+	}})
+
+	// receive-queue kernel: frames recorded once from a real sender are written one by one to the
+	// link of a stand-alone receiving connection (node B only) while the link reader and the
+	// queue workers interleave freely (preemption bounding)
+	for _, prop := range []string{"C12", "C13"} {
+		harn.Register(harn.Scenario{Property: prop, Name: "recvqueue-kernel-3frames", QuickShards: 10, Shards: 16, Run: func(ctx *harn.Ctx) *harn.Result {
+			msgs := []string{"m1", "m2", "m3"}
+			frames := recordFrames(msgs)
+			if len(frames) != 3 {
+				r := harn.NewResult("sched")
+				r.Fail("harness", "expected 3 recorded frames, got %d", len(frames))
+				return r
+			}
+			return harn.Explore(ctx, harn.Sched{QuickBound: 2, ThoroughBound: 3, Preempt: true, Cache: true, Body: func(ex *vsched.Exec) string {
+				nb := startNetNode("b@localhost", netOpts{})
+				w := &World{ex: ex, n: nb, recs: map[string]*rec{}, pids: map[string]gen.PID{}, tag: "B-"}
+				w.spawnProbe("R", probeCfg{}, gen.ProcessOptions{})
+				ca, cb := vconn.Pair("a0", "b0")
+				res := gen.HandshakeResult{ConnectionID: "kernel", Peer: "a@localhost", PeerCreation: nb.creation, PeerFlags: nb.network.flags, NodeFlags: nb.network.flags,
+					Custom: handshake.ConnectionOptions{PoolSize: 1,
+						EncodeAtomCache: &vsync.Map{}, EncodeRegCache: &vsync.Map{}, EncodeErrCache: &vsync.Map{},
+						DecodeAtomCache: &vsync.Map{}, DecodeRegCache: &vsync.Map{}, DecodeErrCache: &vsync.Map{}}}
+				w.Setup("conn", func() {
+					pc, err := nb.network.defaultProto.NewConnection(nb, res, createLog(gen.LogLevelDisabled, nb.dolog))
+					if err != nil {
+						panic(err)
+					}
+					nb.network.registerConnection(res.Peer, pc)
+					pc.Join(cb, res.ConnectionID, nil, nil)
+				})
+				ex.Thread("FEED", func() {
+					for _, f := range frames {
+						ca.Write(f)
+						vsched.Block(vsched.OpUser, 0, func() bool { return cb.Pending() == 0 })
+					}
+				})
+				ex.Run()
+				got := handled(w.recs["R"], "M:")
+				if !inOrder(got, msgs) {
+					ex.Fail("network-order-violated", "frames m1,m2,m3 of one pair arrived on one link; handled in the order %v", got)
+				}
+				for _, m := range msgs {
+					if n := count(got, m); n != 1 {
+						k := "network-message-lost"
+						if n > 1 {
+							k = "network-message-duplicated"
+						}
+						ex.Fail(k, "frame %s was handled %d times (%v): the receive queue is left non-empty with no worker, or drained twice", m, n, got)
+					}
+				}
+				ex.Release()
+				vsched.Quiet(func() { nb.StopForce() })
+				return fmt.Sprint(got)
+			}})
+		}})
+	}
+}
+
+var recorded = map[string][][]byte{}
+
+// recordFrames runs a real two-node exchange once (default schedule) and returns the frames that
+// node A wrote for the given messages from its first process to the first process of node B
+func recordFrames(msgs []string) [][]byte {
+	key := strings.Join(msgs, ",")
+	if f, ok := recorded[key]; ok {
+		return f
+	}
+	var frames [][]byte
+	vsched.RunOnce(10, netBody(netOpts{}, func(nw *NetWorld) {
+		var errs []string
+		spid := seqSender(nw.a, "S", &errs)
+		rpid := nw.b.spawnProbe("R", probeCfg{}, gen.ProcessOptions{})
+		nw.connect()
+		if nw.ex.Failed() {
+			return
+		}
+		link := nw.links[0]
+		link.cb.Hold = true
+		nw.a.Setup("record", func() { nw.a.n.Send(spid, seqReq{rpid, msgs}) })
+		stream := append([]byte{}, link.cb.Drain()...)
+		link.cb.Hold = false
+		for len(stream) >= 8 {
+			l := int(stream[2])<<24 | int(stream[3])<<16 | int(stream[4])<<8 | int(stream[5])
+			if l < 8 || l > len(stream) {
+				break
+			}
+			frames = append(frames, stream[:l])
+			stream = stream[l:]
+		}
+	}))
+	recorded[key] = frames
+	return frames
 }
